@@ -49,29 +49,29 @@ type zvwWIt struct {
 
 // zvwWCItem is an item with its concrete bytes.
 type zvwWCItem struct {
-	It  zvwWIt    `json:"it"`
-	Var string `json:"var"` // concrete variant (diagnostics and violation keys zvwOnly)
-	Det string `json:"det"` // further detail (lengths)
-	Hex string `json:"hex"`
-	b   []byte
+	It   zvwWIt `json:"it"`
+	Var  string `json:"var"` // concrete variant (diagnostics and violation keys zvwOnly)
+	Det  string `json:"det"` // further detail (lengths)
+	Hex  string `json:"hex"`
+	b    []byte
 	base int // add requests: length of the part before the constraint bytes
 }
 
 type zvwWReplay struct {
 	Items []zvwWCItem `json:"items"`
-	Conn  string   `json:"conn"`
+	Conn  string      `json:"conn"`
 }
 
 type zvwWPlan struct {
-	Streams [][]zvwWIt          `json:"streams"` // abstract streams exported by TLC
-	Groups  map[string][]int `json:"groups"`  // dispatch group -> all codes of the group (from TLC)
-	GroupOf map[string]string `json:"group_of"`
-	Sweep   bool             `json:"sweep"`   // every code 0..255 in every frame shape
-	Random  int              `json:"random"`  // number of random / grammar-derived streams
-	MaxLen  int              `json:"maxlen"`
-	PipeEvery int            `json:"pipe_every"` // every n-th stream runs over a net.Pipe instead of the in-memory connection
-	Replays []zvwWReplay        `json:"replays"`
-	Workers int              `json:"workers"`
+	Streams   [][]zvwWIt        `json:"streams"` // abstract streams exported by TLC
+	Groups    map[string][]int  `json:"groups"`  // dispatch group -> all codes of the group (from TLC)
+	GroupOf   map[string]string `json:"group_of"`
+	Sweep     bool              `json:"sweep"`  // every code 0..255 in every frame shape
+	Random    int               `json:"random"` // number of random / grammar-derived streams
+	MaxLen    int               `json:"maxlen"`
+	PipeEvery int               `json:"pipe_every"` // every n-th stream runs over a net.Pipe instead of the in-memory connection
+	Replays   []zvwWReplay      `json:"replays"`
+	Workers   int               `json:"workers"`
 }
 
 type zvwWSt struct {
@@ -80,22 +80,22 @@ type zvwWSt struct {
 	Out []int  `json:"out"`
 }
 
+// zvwWLabel is what was observed for one whole stream (independent of how the server reads its input).
 type zvwWLabel struct {
-	I    int  `json:"i"`
-	It   zvwWIt  `json:"it"`
-	Nrep int  `json:"nrep"`
-	Rel  bool `json:"rel"`
-	Pan  bool `json:"pan"`
-	Big  bool `json:"big"`
+	Items []zvwWIt `json:"items"`
+	Nrep  int      `json:"nrep"` // response frames written (a trailing incomplete frame counts as one)
+	Nrel  int      `json:"nrel"` // pending waits released from a second connection
+	Pan   bool     `json:"pan"`
+	Big   bool     `json:"big"`
 }
 
 type zvwWRec struct {
 	Ev   string      `json:"ev"`
 	Fam  string      `json:"fam"`
 	Tid  string      `json:"tid"`
-	Pre  *zvwWSt        `json:"pre,omitempty"`
-	E    *zvwWLabel     `json:"e,omitempty"`
-	Post zvwWSt         `json:"post"`
+	Pre  *zvwWSt     `json:"pre,omitempty"`
+	E    *zvwWLabel  `json:"e,omitempty"`
+	Post zvwWSt      `json:"post"`
 	Info interface{} `json:"info,omitempty"`
 }
 
@@ -134,7 +134,7 @@ func (c *zvwWConn) note(e zvwWEvent) {
 
 func (c *zvwWConn) Read(p []byte) (int, error) {
 	c.note(zvwWEvent{kind: 'r'})
-	if c.markOff >= 0 && c.m0 == nil && c.consumed() == c.markOff {
+	if off := c.consumed(); c.markOff >= 0 && c.m0 == nil && off <= c.markOff && off+len(p) > c.markOff {
 		c.m0 = &runtime.MemStats{}
 		runtime.ReadMemStats(c.m0)
 	}
@@ -268,34 +268,38 @@ func (e *zvwWEnv) close() {
 	os.Remove(e.dir)
 }
 
-// waiters returns the number of goroutines parked in shimagent.Server.Wait(w), or -1 when the implementation does
-// not keep them where this observer can count them (then zvwRunStream falls back to "no progress for a while").
-func (e *zvwWEnv) waiters() (n int) {
+// waiters returns, per message code, the number of goroutines parked in shimagent.Server.Wait(code), or nil when the
+// implementation does not keep them where this observer can count them (then zvwRunStream falls back to "nothing
+// happened on the connection for a while").
+func (e *zvwWEnv) waiters() (out map[int]int) {
 	defer func() {
 		if recover() != nil {
-			n = -1
+			out = nil
 		}
 	}()
 	s, ok := e.shim.(*shimagent.Server)
 	if !ok {
-		return -1
+		return nil
 	}
 	conds := reflect.ValueOf(s).Elem().FieldByName("conds")
 	if !conds.IsValid() || (conds.Kind() != reflect.Array && conds.Kind() != reflect.Slice) {
-		return -1
+		return nil
 	}
+	out = map[int]int{}
 	for i := 0; i < conds.Len(); i++ {
 		c := conds.Index(i)
 		if c.Kind() != reflect.Ptr || c.IsNil() {
-			return -1
+			return nil
 		}
 		nl := c.Elem().FieldByName("notify")
 		if !nl.IsValid() || !nl.FieldByName("wait").IsValid() || !nl.FieldByName("notify").IsValid() {
-			return -1
+			return nil
 		}
-		n += int(uint32(nl.FieldByName("wait").Uint()) - uint32(nl.FieldByName("notify").Uint()))
+		if n := int(uint32(nl.FieldByName("wait").Uint()) - uint32(nl.FieldByName("notify").Uint())); n > 0 {
+			out[i] = n
+		}
 	}
-	return n
+	return out
 }
 
 // ---------------------------------------------------------------------------------------------
@@ -619,13 +623,14 @@ func (g *zvwWGen) pick(it zvwWIt, groupOf map[string]string) zvwWIt {
 // running one stream
 
 type zvwWResult struct {
-	steps   []zvwWLabel
-	posts   []zvwWSt
+	lab     zvwWLabel
+	final   string // ok | err | crashed | hung
 	retErr  error
 	pan     interface{}
 	hung    bool
 	alloc   uint64
 	replies [][]byte
+	attrib  []int // diagnostics only: responses per item under the assumption that the server does not read ahead
 }
 
 func (e *zvwWEnv) poisoned(items []zvwWCItem) bool {
@@ -728,43 +733,54 @@ loop:
 			closed = true
 			hside.Close()
 		}
-		// a pending wait: the server is parked in Wait(w).  Observed by the parked-waiter count; when the implementation
-		// does not expose one, by "the last item consumed is a wait for a code < 40, it is consumed completely and
-		// nothing has happened on the connection for 40 ms".
+		// pending waits: the server is parked in Wait(w) until a request with code w arrives on another connection.
+		// Observed by the parked-waiter count per code; when the implementation does not expose one: "some wait item
+		// for a code < 40 has been read (at least partly) and nothing happened on the connection for 40 ms".  Neither
+		// depends on how far the server has read ahead.
 		c.mu.Lock()
 		off, nlog := c.off, len(c.log)
 		c.mu.Unlock()
 		if nlog != lastLog {
 			lastLog, lastChange = nlog, time.Now()
 		}
-		wi := -1
-		for i := len(items) - 1; i >= 0; i-- {
-			if starts[i] < off {
-				wi = i
-				break
+		var codes []int
+		if ws := e.waiters(); ws != nil {
+			for w := range ws {
+				codes = append(codes, w)
+			}
+		} else if time.Since(lastChange) > 40*time.Millisecond {
+			// the first wait item not yet released whose bytes the server has started to read; when all are
+			// released and the server is still silent, the last one again (the release may have come too early)
+			pick := -1
+			for i := range items {
+				if items[i].It.K == "frame" && len(items[i].b) >= 6 && items[i].b[4] == 35 && items[i].b[5] < 40 && starts[i] < off {
+					if released[i] == 0 {
+						pick = i
+						break
+					}
+					if released[i] < 20 {
+						pick = i
+					}
+				}
+			}
+			if pick >= 0 {
+				released[pick]++
+				codes = append(codes, int(items[pick].b[5]))
 			}
 		}
-		isWait := wi >= 0 && items[wi].It.K == "frame" && len(items[wi].b) >= 6 && items[wi].b[4] == 35 && items[wi].b[5] < 40 &&
-			off >= starts[wi]+len(items[wi].b)
-		nw := e.waiters()
-		parked := nw > 0 || (nw < 0 && isWait && time.Since(lastChange) > 40*time.Millisecond)
-		if parked && isWait {
-			if released[wi] == 0 {
-				c.note(zvwWEvent{kind: 'x'})
-			}
-			released[wi]++
-			c.mu.Lock()
-			lastLog, lastChange = len(c.log), time.Now()
-			c.mu.Unlock()
-			// a request with code w arrives on another connection of the same server
-			other := &zvwWConn{in: zvwWFrame([]byte{items[wi].b[5], 40}), sig: make(chan struct{}, 1), markOff: -1}
+		for _, w := range codes {
+			res.lab.Nrel++
+			other := &zvwWConn{in: zvwWFrame([]byte{byte(w), 40}), sig: make(chan struct{}, 1), markOff: -1}
 			func() {
 				defer func() { recover() }()
 				_ = ServeAgent(e.srv, other)
 			}()
-			for k := 0; k < 2000 && e.waiters() > 0; k++ {
+			for k := 0; k < 2000 && len(e.waiters()) > 0; k++ {
 				time.Sleep(50 * time.Microsecond)
 			}
+			c.mu.Lock()
+			lastLog, lastChange = len(c.log), time.Now()
+			c.mu.Unlock()
 		}
 	}
 	if measure && c.m0 != nil && !res.hung {
@@ -781,84 +797,53 @@ loop:
 		c.pipe.Close()
 	}
 	res.retErr, res.pan = r.err, r.pan
+	res.final = "ok"
+	switch {
+	case res.hung:
+		res.final = "hung"
+	case res.pan != nil:
+		res.final = "crashed"
+	case res.retErr != nil:
+		res.final = "err"
+	}
 
-	// attribution: the item "entered" is the last one whose first byte the server had asked for
+	// the response frames: everything the server wrote, cut by the harness's own framer
 	c.mu.Lock()
 	log := c.log
 	c.mu.Unlock()
-	final := "ok"
-	switch {
-	case res.hung:
-		final = "hung"
-	case res.pan != nil:
-		final = "crashed"
-	case res.retErr != nil:
-		final = "err"
-	}
-	type seg struct {
-		nrep int
-		rel  bool
-	}
-	cur := -1 // index of the item entered
-	var segs []seg
-	itemOf := []int{}
-	var wbuf []byte
-	need := 0 // bytes still missing of the response frame being written
 	ends := make([]int, len(items))
 	for i := range items {
 		ends[i] = starts[i] + len(items[i].b)
 	}
-	advance := func(off int) {
-		// the item the server asks for: the first one that ends behind off, else the last one
-		target := len(items) - 1
-		for i := range items {
-			if off < ends[i] {
-				target = i
-				break
-			}
-		}
-		for cur < target {
-			cur++
-			segs = append(segs, seg{})
-			itemOf = append(itemOf, cur)
-		}
-	}
-	var outBytes []byte
+	res.attrib = make([]int, len(items))
+	cur := 0
+	var outBytes, wbuf []byte
+	need := 0
 	for _, ev := range log {
 		switch ev.kind {
 		case 'r':
-			advance(ev.off)
-		case 'x':
-			if len(segs) > 0 {
-				segs = append(segs, seg{rel: true})
-				itemOf = append(itemOf, cur)
+			for cur+1 < len(items) && ev.off >= ends[cur] {
+				cur++
 			}
 		case 'w':
 			outBytes = append(outBytes, ev.data...)
 			data := ev.data
 			for len(data) > 0 {
 				if need == 0 {
-					// header of a new response frame (own framer)
 					k := 4 - len(wbuf)
 					if k > len(data) {
 						k = len(data)
 					}
 					if len(wbuf) == 0 {
-						if len(segs) == 0 {
-							advance(0)
-						}
-						segs[len(segs)-1].nrep++
+						res.lab.Nrep++ // a response frame begins
+						res.attrib[cur]++
 					}
 					wbuf = append(wbuf, data[:k]...)
 					data = data[k:]
 					if len(wbuf) == 4 {
 						need = int(binary.BigEndian.Uint32(wbuf))
-						if need == 0 {
-							res.replies = append(res.replies, []byte{})
-							wbuf = nil
-						} else {
-							res.replies = append(res.replies, nil)
-						}
+						wbuf = nil
+						res.replies = append(res.replies, []byte{})
 					}
 				} else {
 					k := need
@@ -868,56 +853,24 @@ loop:
 					res.replies[len(res.replies)-1] = append(res.replies[len(res.replies)-1], data[:k]...)
 					data = data[k:]
 					need -= k
-					if need == 0 {
-						wbuf = nil
-					}
 				}
 			}
 		}
 	}
-	if mode == "pipe" {
+	if mode == "pipe" && !res.hung {
 		dmu.Lock()
 		same := bytes.Equal(drained.Bytes(), outBytes)
 		dmu.Unlock()
-		if !same && !res.hung {
+		if !same {
 			// what arrived on the harness side of the pipe differs from what the server wrote: count as an extra response
-			if len(segs) > 0 {
-				segs[len(segs)-1].nrep++
-			}
+			res.lab.Nrep++
 		}
 	}
-	if need > 0 || len(wbuf) > 0 {
-		// an incomplete response frame was written: it was counted when its first byte appeared
+	for _, it := range items {
+		res.lab.Items = append(res.lab.Items, it.It)
 	}
-	st := zvwWSt{Pos: 1, St: "running", Out: []int{}}
-	for si, sg := range segs {
-		i := itemOf[si]
-		lab := zvwWLabel{I: i + 1, It: items[i].It, Nrep: sg.nrep, Rel: sg.rel}
-		post := zvwWSt{Pos: st.Pos, Out: append([]int{}, st.Out...)}
-		if !sg.rel {
-			post.Pos = st.Pos + 1
-		}
-		for k := 0; k < sg.nrep; k++ {
-			post.Out = append(post.Out, i+1)
-		}
-		switch {
-		case si+1 < len(segs) && segs[si+1].rel:
-			post.St = "waiting"
-		case si+1 < len(segs):
-			post.St = "running"
-		default:
-			post.St = final
-			if final == "crashed" {
-				lab.Pan = true
-			}
-		}
-		if items[i].It.K == "oversize" && measure && res.alloc >= 1<<20 {
-			lab.Big = true
-		}
-		res.steps = append(res.steps, lab)
-		res.posts = append(res.posts, post)
-		st = post
-	}
+	res.lab.Pan = res.pan != nil
+	res.lab.Big = measure && res.alloc >= 1<<20
 	return res
 }
 
@@ -1205,27 +1158,35 @@ func TestVerifWire(t *testing.T) {
 			kinds = append(kinds, zvwRespKind(rp))
 		}
 		info["replies"] = kinds
+		info["attributed"] = res.attrib
+		vars := []string{}
+		for _, it := range items {
+			vars = append(vars, it.Var)
+		}
 		recs := []interface{}{zvwWRec{Ev: "reset", Fam: "w", Tid: j.tid, Post: zvwWSt{Pos: 1, St: "running", Out: []int{}}, Info: info}}
 		pre := zvwWSt{Pos: 1, St: "running", Out: []int{}}
+		l := res.lab
+		recs = append(recs, zvwWRec{Ev: "step", Fam: "w", Tid: j.tid, Pre: &pre, E: &l, Post: zvwWSt{Pos: len(items) + 1, St: res.final, Out: []int{}},
+			Info: map[string]interface{}{"vars": vars, "ret": fmt.Sprint(res.retErr), "replies": kinds, "attributed": res.attrib}})
 		mu.Lock()
-		for i := range res.steps {
-			p := pre
-			l := res.steps[i]
-			recs = append(recs, zvwWRec{Ev: "step", Fam: "w", Tid: j.tid, Pre: &p, E: &l, Post: res.posts[i],
-				Info: map[string]string{"var": items[l.I-1].Var, "det": items[l.I-1].Det}})
-			pre = res.posts[i]
-			labels[fmt.Sprintf("%s/%d/%s/%s/%s|%d|%v|%s>%s", l.It.K, zvwGroupClass(l.It.Code), l.It.Len, l.It.Body, l.It.Aux, l.Nrep, l.Rel, p.St, pre.St)] = true
-			if l.It.K == "frame" && l.It.Code >= 0 {
-				codesSeen[l.It.Code] = true
+		for i, it := range items {
+			if it.It.K == "frame" && it.It.Code >= 0 {
+				codesSeen[it.It.Code] = true
 			}
+			// distinct (item class, responses while it was the current item, how service ended there) observed
+			end := "-"
+			if i == len(items)-1 || (res.attrib[i] == 0 && res.final != "ok" && i+1 < len(items) && res.attrib[i+1] == 0) {
+				end = res.final
+			}
+			labels[fmt.Sprintf("%s/%d/%s/%s/%s|%d|%s", it.It.K, zvwGroupClass(it.It.Code), it.It.Len, it.It.Body, it.It.Aux, res.attrib[i], end)] = true
 			stats["steps"]++
-			if l.Pan {
-				stats["panics"]++
-			}
+		}
+		if l.Pan {
+			stats["panics"]++
 		}
 		stats["streams"]++
 		stats["streams_"+mode]++
-		if len(samples) < 6 && len(res.steps) > 1 && stats["streams"]%97 == 1 {
+		if len(samples) < 6 && len(items) > 1 && stats["streams"]%97 == 1 {
 			samples = append(samples, map[string]interface{}{"tid": j.tid, "items": func() []string {
 				o := []string{}
 				for _, it := range items {
